@@ -11,6 +11,7 @@ Sections
               default range: every batch-index sequence over a small index set, generator handed to
               the batch must equal the one of a fresh context.
   default   : default high = 2**31, indices 0..N in increasing / decreasing / jumping orders.
+  nocache-interleaved : cache-free requests of two master seeds interleaved in every order (depth <= 3/4).
 """
 import itertools
 
@@ -211,7 +212,33 @@ def run_default(case):
     return r
 
 
-RUNNERS = {'closure': run_closure, 'sequences': run_sequences, 'loader': run_loader, 'default': run_default}
+@guarded('C15')
+def run_nocache(case):
+    """Cache-free requests interleaved between different master seeds and ranges: every sequence up to a depth over
+    (seed, high, index) triples; each answer must equal the answer of the same request made with a fresh explicit cache
+    (callers that pass no cache - SMC round seeds, BOLFI chain seeds, external operations - must not influence each
+    other)."""
+    f = _get()
+    triples = [tuple(t) for t in case['triples']]
+    ref = {}
+    for (seed, high, i) in triples:
+        ref[(seed, high, i)] = int(f(seed, i, high=high, cache={}))
+    n = 0
+    for L in range(1, case['depth'] + 1):
+        for seq in itertools.product(triples, repeat=L):
+            got = [int(f(seed, i, high=high)) for (seed, high, i) in seq]
+            n += 1
+            exp = [ref[t] for t in seq]
+            if got != exp:
+                return bad('C15:cache-free-request-depends-on-earlier-requests',
+                           {'sequence': [list(t) for t in seq], 'got': got, 'alone': exp})
+    r = ok(outcome=digest(sorted(ref.items())), calls=n)
+    r.update(validated=n, evals=n, distinct=n)
+    return r
+
+
+RUNNERS = {'closure': run_closure, 'sequences': run_sequences, 'loader': run_loader, 'default': run_default,
+           'nocache': run_nocache}
 
 
 def replay(case):
@@ -237,6 +264,12 @@ def run(ctx):
     ctx.run_cases(run_loader, cases, 'loader')
     cases = [{'kind': 'default', 'seed': s, 'n': 60 if q else 200} for s in seeds[: (4 if q else 10)]]
     ctx.run_cases(run_default, cases, 'default', chunksize=1, timeout=120)
+    cases = []
+    for (s1, s2) in [(seeds[0], seeds[1]), (seeds[2], seeds[-1])]:
+        for high in (4, 2 ** 31):
+            triples = [[s, high, i] for s in (s1, s2) for i in (0, 1, 2)]
+            cases.append({'kind': 'nocache', 'triples': triples, 'depth': 3 if q else 4})
+    ctx.run_cases(run_nocache, cases, 'nocache-interleaved', chunksize=1, timeout=600)
     if ctx.cnt.get('not_closed'):
         ctx.exhaustive = False
     ctx.extra['explanation'] = ('states = reachable canonical cache states summed over (seed, high); transitions = '
